@@ -388,6 +388,8 @@ theorem bi_strfmt (ih : IH env f) (name : Bytes) (args : List Node) (np : Pos) (
     cases h1
     refine Tr.bind (ih.list rest s ha.cons.2.cons.2 hs) fun vs s2 hs2 _ _ => ?_
     refine Tr.getS ?_
+    split
+    · exact Tr.runErr hs2 _ _
     refine Tr.bind (tr_ask _ _ hs2) fun a s3 hs3 _ h3 => ?_
     cases h3
     exact qt_mono (tr_setPt _ _ hs2 (gv_str [] _).wellTagged trivial (by setpt_cs0))
@@ -450,6 +452,8 @@ theorem bi_printf (ih : IH env f) (name : Bytes) (args : List Node) (np : Pos) (
           show Tr s1 _ QT
           refine Tr.bind (ih.list rest s1 ha.cons.2 h.1) fun vs s2 hs2 _ _ => ?_
           refine Tr.getS ?_
+          split
+          · exact Tr.runErr hs2 _ _
           refine Tr.bind (tr_ask _ _ hs2) fun a s3 hs3 _ h3 => ?_
           cases h3
           exact Tr.modWorld (hs2.of_eq rfl rfl rfl rfl) (HeapLe.refl _) trivial
